@@ -8,7 +8,8 @@ import asyncio
 
 
 class Controller:
-    def __init__(self, schedule=None, pick=None):
+    def __init__(self, schedule=None, pick=None, key=None):
+        self.key = key or (lambda path, idx, args: f"{path}#{idx}")
         self.schedule = list(schedule or [])     # preferred release order: "path#idx"
         self.pick = pick                         # fallback policy: callable(sorted keys) -> key
         self.parked = {}                         # key -> future
@@ -18,8 +19,8 @@ class Controller:
         self.released = []
         self.deadlock = False
 
-    async def park(self, path, idx):
-        key = f"{path}#{idx}"
+    async def park(self, path, idx, args=()):
+        key = self.key(path, idx, args)
         fut = asyncio.get_running_loop().create_future()
         self.parked[key] = fut
         self.progress += 1
@@ -70,9 +71,9 @@ class Controller:
                 return
 
 
-def run_controlled(coro_factory, rt, schedule=None, pick=None):
+def run_controlled(coro_factory, rt, schedule=None, pick=None, key=None):
     """coro_factory() -> coroutine of the run.  Returns (result or exception, controller)."""
-    ctl = Controller(schedule, pick)
+    ctl = Controller(schedule, pick, key)
     rt.controller = ctl
 
     async def main():
